@@ -308,7 +308,7 @@ def main():
     chk = Check("C10", __doc__)
     LS, LR = (6, 7) if chk.tier == "quick" else (8, 8)
     chk.bounds = {"value alphabet": SIGMA, "strip/restore/add: every value of length": f"0..{LS} without leading/trailing blank",
-                  "options": "reuse x enclose_integers x default in {'{','\"'} x field key in {year, title} x with/without prior removal",
+                  "options": "reuse x enclose_integers x default in {'{','\"'} x field key in {year, title} x with/without prior removal; every other key of the numeric-field list (month, volume, number, pages, edition, chapter, issue) and the near misses years / chapteredition / Year with values of length 1..2 and ints",
                   "int values": "symbolic int 0..40", "re-parse clause: every escape-aware brace-balanced value of length": f"0..{LR}"}
     chk.assumptions = ["values contain only the alphabet characters; '1' is the only digit",
                        "re-parse clause: brace balance is escape-aware (a backslash escapes the next character), value must not end in an unescaped backslash, and for the quote default contains no bare quote at depth 0 - as in the statement",
@@ -320,6 +320,13 @@ def main():
                          reuse=reuse, encl_int=encl_int, default=default, with_remove=with_remove)
     for key, reuse, encl_int, default in itertools.product(("year", "title"), (True, False), (True, False), ("{", '"')):
         chk.add_task(f"int-{key}-r{int(reuse)}-i{int(encl_int)}-{default}", task_int, key=key, reuse=reuse, encl_int=encl_int, default=default)
+    # every key of the documented numeric-field list, and near misses of it, at small lengths
+    for key in NUMERIC[1:] + ("years", "chapteredition", "Year"):
+        for reuse, encl_int, default in itertools.product((True, False), (True, False), ("{", '"')):
+            chk.add_task(f"int-{key}-r{int(reuse)}-i{int(encl_int)}-{default}", task_int, key=key, reuse=reuse, encl_int=encl_int, default=default)
+            for L in (2, 1):
+                chk.add_task(f"str-{key}-r{int(reuse)}-i{int(encl_int)}-{default}-rm1-L{L}", task_str, L=L, key=key,
+                             reuse=reuse, encl_int=encl_int, default=default, with_remove=True)
     for default in ("{", '"'):
         for L in range(LR, -1, -1):
             if L >= LR - 1 and L >= 2:
